@@ -112,7 +112,7 @@ def main(tier):
                 "contains at least one re-layout step besides constructors; distinct by the whole chain")
     insts = instances(tier)
     jobs = [dict(module_path=MODULE, cfg=tlc.make_cfg(constants=c, invariants=["RoundTripLaws", "ConcatSplitLaw", "Emit"], constraint="InOrder"),
-                 constants=c, coverage=True, workers=6, timeout=6000) for c in insts]
+                 constants=c, coverage=False, workers=6, timeout=6000) for c in insts]
     behaviours = []
     for r in tlc.run_many(jobs, parallel=3):
         chk.add_tlc(r, vacuity_actions=("New", "RoundTrip", "ViaVector", "Concat", "Split", "ExpandOp", "CombineOp", "SubsetOp", "ScalarRT", "ImagesRT"))
@@ -132,6 +132,7 @@ def main(tier):
         if h not in seen:
             seen.add(h)
             behaviours.append(c["hist"])
+    core.require_ops(behaviours, ["RoundTrip", "ViaVector", "Concat", "Split", "Expand", "CombineAxes", "MergeAxes", "Pmap", "Subset", "ScalarRT", "ToScalar", "ImagesRT", "Copy"])
     for fails, n in core.pmap(storereplay.replay_chunk, core.shards(behaviours, 64)):
         chk.evaluations += n
         chk.traces += n
